@@ -296,6 +296,36 @@ func deathViolation(tr *core.Trace) core.Violation {
 		Msg: fmt.Sprintf("the node process exited (os.Exit / fatal error) while executing step %d (%s) with inputs %v", len(tr.Steps)-1, last.Kind, last.Labels)}
 }
 
+// captureRun re-runs one seed in a fresh worker (different GOMAXPROCS) and returns its report with trace.
+func captureRun(prop, tier string, seed uint64) *RunReport {
+	cmd := exec.Command(os.Args[0], "worker", prop, tier)
+	cmd.Env = append(os.Environ(), "GOMAXPROCS=4")
+	cmd.Stdin = strings.NewReader(fmt.Sprintf("%d trace\n", seed))
+	var out bytes.Buffer
+	cmd.Stdout = &out
+	done := make(chan error, 1)
+	if err := cmd.Start(); err != nil {
+		return nil
+	}
+	go func() { done <- cmd.Wait() }()
+	select {
+	case <-done:
+	case <-time.After(5 * time.Minute):
+		cmd.Process.Kill()
+		<-done
+		return nil
+	}
+	for _, l := range strings.Split(out.String(), "\n") {
+		if strings.HasPrefix(l, "{") {
+			rep := &RunReport{}
+			if json.Unmarshal([]byte(l), rep) == nil {
+				return rep
+			}
+		}
+	}
+	return nil
+}
+
 // captureDeath re-runs a seed whose worker died, with trace streaming, and returns the killing prefix.
 func captureDeath(prop, tier string, seed uint64) *RunReport {
 	path := filepath.Join(os.TempDir(), fmt.Sprintf("olsim-death-%d-%d.json", os.Getpid(), seed))
@@ -604,6 +634,37 @@ func CheckMain(prop, tier string) int {
 	}
 	sr := sweep(prop, tier, seeds, workers, b.WallCap, sampleEvery)
 
+	crossChecked, crossDiffer := 0, 0
+	if prop == "C01" {
+		// process-level nondeterminism (wall clock, UUIDs, address ordering): re-execute a sample of the
+		// recorded traces in fresh processes and compare the digests of everything observable.
+		step := len(sr.reports)/24 + 1
+		for i := 0; i < len(sr.reports); i += step {
+			r := sr.reports[i]
+			if r.HarnessErr != "" || len(r.Violations) > 0 || r.Digest == "" {
+				continue
+			}
+			rr := captureRun(prop, tier, r.Seed)
+			if rr == nil || rr.Trace == nil || rr.HarnessErr != "" {
+				continue
+			}
+			crossChecked++
+			if rr.Digest == r.Digest {
+				continue
+			}
+			// generation differed between processes: decide whether the application or the harness is the source
+			a, _ := replayTrace(rr.Trace)
+			b, _ := replayTrace(rr.Trace)
+			if a.Digest != "" && a.Digest == b.Digest {
+				sr.reports = append(sr.reports, &RunReport{Seed: r.Seed, HarnessErr: fmt.Sprintf("generation is not a pure function of the seed (digests %s vs %s) but replays agree", r.Digest, rr.Digest)})
+				continue
+			}
+			crossDiffer++
+			rr.Violations = []core.Violation{{Property: "C01", Oracle: "same-trace-fresh-processes", Sig: "cross-process-divergence",
+				Msg: fmt.Sprintf("the same recorded history executed in two fresh processes gives different observable results (digests %s vs %s)", a.Digest, b.Digest), Step: len(rr.Trace.Steps) - 1}}
+			sr.reports = append(sr.reports, rr)
+		}
+	}
 	if prop == "C18" {
 		// process death is an observation for this property: capture the killing prefix of up to 8 seeds
 		for i, seed := range sr.deaths {
@@ -739,6 +800,19 @@ func CheckMain(prop, tier string) int {
 			}
 			continue
 		}
+		if v.Sig == "cross-process-divergence" {
+			// already confirmed by two fresh-process replays that disagree with each other
+			tcopy := cloneTrace(r.Trace)
+			tcopy.Violation = &v
+			path := filepath.Join(dir, "replays", fmt.Sprintf("%s-%d-%s.json", prop, r.Seed, sanitize(v.Sig)))
+			tb, _ := json.MarshalIndent(tcopy, "", " ")
+			os.WriteFile(path, tb, 0644)
+			fmt.Printf("violation: %s\n  (replay the file twice with `olsim replay <file> --json` and compare the digest fields)\n", v.String())
+			fmt.Printf("VIOLATION property=%s replay=%s\n", prop, path)
+			nviol++
+			exit = 1
+			continue
+		}
 		// confirm + minimise in fresh processes
 		rep0, _ := replayTrace(r.Trace)
 		if !sameViolation(rep0, v) {
@@ -831,6 +905,10 @@ func CheckMain(prop, tier string) int {
 		"worker_deaths":       len(sr.deaths),
 		"wall_capped":         sr.capped,
 		"workers":             workers,
+	}
+	if prop == "C01" {
+		cov["cross_process_reexecutions"] = crossChecked
+		cov["cross_process_divergences"] = crossDiffer
 	}
 	if inputs > 0 {
 		cov["inputs"] = inputs
